@@ -266,17 +266,18 @@ def normalize_url(
             url = normalize_youtube_url(url)
 
     # Parsing
+    # NOTE: accessing the port can also raise when it is not a valid number
     try:
         splitted = urlsplit(url)
+        port = splitted.port
     except ValueError:
         return original_url_arg
 
     scheme, netloc, path, query, fragment = splitted
-    user, password, hostname, port = (
+    user, password, hostname = (
         splitted.username,
         splitted.password,
         splitted.hostname,
-        splitted.port,
     )
 
     # Fixing common mistakes
